@@ -270,6 +270,14 @@ def column_adder(prog, res, f, kind, rule='column'):
             o = R.render(f.call_obj(n))
             if o.startswith('this._data'):
                 sites.append(n)
+    if not sites:
+        # the appends may have moved into a helper that is handed the data section
+        handed = [c for c in f.calls() if c['callee'].get('inrepo') and c['callee'].get('usr') in prog.funcs and prog.funcs[c['callee']['usr']].body is not None and
+                  any(re.match(r'^\*?\(?this\._data\b', R.render(a)) for a in f.call_args(c))]
+        if handed:
+            res.undecided(rule, inst, f.loc(handed[0]['id']), 'the stored frames are handed to %s; the appends are not in the column adder itself [shape not read by the rule]' % handed[0]['callee']['qname'],
+                          function=f.sig, expr='sites')
+            return
     if len(sites) != 1:
         (res.viol if not sites else res.undecided)(rule, inst, f.loc(), 'expected exactly one append site into the stored frames, found %d' % len(sites), function=f.sig, expr='sites')
         return
